@@ -88,7 +88,7 @@ def run(tier):
         "exhaustive": False,
     })
     rep.assumptions += ["affine coordinates are read through the library's own coordinate accessors (to_affine / coordinates)",
-                        "G2 of both pairing curves is judged by the group law over Fp2 of Tower.tla; points outside the subgroup built with unchecked constructors are not covered",
+                        "G2 of both pairing curves is judged by the group law over Fp2 of Tower.tla; Jubjub points of order 2, 4, 8 (and sums with subgroup points) are covered; BLS12-381 / BN254 points outside the subgroup are not",
                         "byte formats are not modelled: encodings are judged by laws (round trip, canonical re-encoding, membership)"]
     return rep.finish()
 
